@@ -20,11 +20,19 @@ def change_one(table, v, rng):
         name = f"f{i}"
         if isinstance(x, bool):
             continue
+        body = table[c]['fields'][i]['body']
+        optional = body[0] == 'opt'
+        # an absent optional against a present but "empty" one (None vs 0, None vs b'') and back: unequal like any other difference
+        if optional and x in (0, b'') and rng.random() < 0.7:
+            return [name], None
         if isinstance(x, int):
             return [name], x + 1
         if isinstance(x, bytes):
             return [name], x + b'!'
         if x is None:
+            el = body[1] if optional else None
+            if el is not None and el[0] == 'leaf':
+                return [name], (0 if el[1][0] == 'int' else b'') if rng.random() < 0.7 else (1 if el[1][0] == 'int' else b'x')
             return [name], 1
         if isinstance(x, tuple) and x[0] == 'pkt':
             sub = change_one(table, x, rng)
@@ -156,6 +164,27 @@ def run(tier, seed, rng):
             G.add_extra(c, dict(op='default_pair', value=pktcases.jvalue(('pkt', c, {}))))
             G.add_extra(c, dict(op='default_pair_each', value=pktcases.jvalue(('pkt', c, {}))))
         groups.append(G)
+    # ---- optional fields: absent (None) against present but empty (0, b''), everything else equal -- packets that differ in exactly one
+    # field; constructed, and one level down inside a reference
+    cond1 = ('bin', 'Eq', ('bin', 'BAnd', ('field', 0), ('lit', 1)), ('lit', 1))
+    cond2 = ('bin', 'Eq', ('bin', 'BAnd', ('field', 0), ('lit', 2)), ('lit', 2))
+    otable = {0: dict(end=None, align=None, sbl=None, gp=True, gu=True, vec=True, ann=True,
+                      fields=[{'move': None, 'body': ('elem', ('leaf', ('int', 1, False, None, 0)))},
+                              {'move': None, 'body': ('opt', ('leaf', ('int', 1, False, None, 0)), (cond1, 'expr'), None)},
+                              {'move': None, 'body': ('opt', ('leaf', ('dmarker', b';', False, b'')), (cond2, 'expr'), None)},
+                              {'move': None, 'body': ('opt', ('leaf', ('int', 2, True, None, 0)), (cond1, 'lambda'), None)}]),
+              1: dict(end=None, align=None, sbl=None, gp=True, gu=True, vec=True, ann=True,
+                      fields=[{'move': None, 'body': ('elem', ('leaf', ('int', 1, False, None, 0)))}, {'move': None, 'body': ('elem', ('refpkt', 0, {}))}])}
+    OG = pktcases.Group(otable, 62000)
+    must_differ = []
+    base = {0: 0, 1: None, 2: None, 3: None}
+    for i, empty in ((1, 0), (2, b''), (3, 0)):
+        for other in (empty, 7 if isinstance(empty, int) else b'x'):
+            a = ('pkt', 0, dict(base)); bb = dict(base); bb[i] = other; b = ('pkt', 0, bb)
+            for x, y in ((a, b), (b, a), (('pkt', 1, {0: 5, 1: a}), ('pkt', 1, {0: 5, 1: b}))):
+                OG.add_eq(x[1], x, y)
+                must_differ.append((62000, len([o for o in OG.ops if o.get('op') == 'eqvals']) - 1, decl.py_value(x), decl.py_value(y)))
+    groups.append(OG)
     # the 'eq' operation needs bytes: take the encoding of the value (pack through the implementation first)
     for G in groups:
         for op in G.ops:
@@ -222,11 +251,18 @@ def run(tier, seed, rng):
                 failures.append(dict(kind='oracle', sig='eq', what=f"{k}: observed {got}, required {w} (==, != and repr must be total, structural and discriminating)",
                                      classes=pktprops.class_source(groups, gid), cls=decl.cname(c), value=decl.py_value(v), change=str(ch)))
     for r in records:
+        if r['kind'] == 'eq' and r['group'] == 62000:
+            k = dist.setdefault('_oidx', 0)
+            dist['_oidx'] = k + 1
+            if 'ok' in r['outcome'] and (r['outcome']['ok'][0] or not r['outcome']['ok'][1]):
+                failures.append(dict(kind='oracle', sig='eq-optional-empty', what=f"{must_differ[k][2]} and {must_differ[k][3]} differ in exactly one (optional) field -- absent against present -- but compare == {r['outcome']['ok'][0]}, != {r['outcome']['ok'][1]}",
+                                     classes=pktprops.class_source(groups, 62000)))
         if r['kind'] == 'eq':
             dist['constructed_pairs'] += 1
             if 'ok' not in r['outcome'] and r['outcome'].get('exc') not in ('KeyError',):
                 failures.append(dict(kind='oracle', sig='eq-raise', what=f"== / != / repr of constructed packets raised: {r['outcome']}",
                                      classes=pktprops.class_source(groups, r['group'])))
+    dist.pop('_oidx', None)
     return dict(evaluations=len(records), distinct_nontrivial=dist['pairs'] + dist['constructed_pairs'],
                 rule=("random class tables in which at/shift/aligned modifiers, the class-wide align option and Em are frequent; per class and "
                       "consistent value: the value is encoded, parsed twice and compared (==, !=, repr, with itself, default instances, another "
